@@ -30,7 +30,8 @@ pub struct Row {
 /// 0: ts Int64, metric, value_i64, id
 /// 1: ts Int64, metric, host(nullable), value_i64, id
 /// 2: ts Timestamp(ns,UTC), metric, value_f64, id
-/// 3: ts Timestamp(ns,UTC), metric, host(nullable), value_f64, value_u64, id
+/// 3: ts Timestamp(ns,UTC), metric, host(nullable), value_i64, value_f64, value_u64, id
+/// 4: like 3 with an Int64 timestamp
 pub fn schema(variant: u32) -> SchemaRef {
     let ts_int = Field::new("timestamp", DataType::Int64, false);
     let ts_ts = Field::new("timestamp", DataType::Timestamp(TimeUnit::Nanosecond, Some("UTC".into())), false);
@@ -44,14 +45,15 @@ pub fn schema(variant: u32) -> SchemaRef {
         0 => Schema::new(vec![ts_int, metric, vi, id]),
         1 => Schema::new(vec![ts_int, metric, host, vi, id]),
         2 => Schema::new(vec![ts_ts, metric, vf, id]),
-        _ => Schema::new(vec![ts_ts, metric, host, vf, vu, id]),
+        4 => Schema::new(vec![ts_int, metric, host, vi, vf, vu, id]),
+        _ => Schema::new(vec![ts_ts, metric, host, vi, vf, vu, id]),
     })
 }
 
 pub fn batch(variant: u32, rows: &[Row]) -> RecordBatch {
     let s = schema(variant);
     let ts: Vec<i64> = rows.iter().map(|r| r.ts).collect();
-    let ts_col: ArrayRef = if variant <= 1 {
+    let ts_col: ArrayRef = if variant <= 1 || variant == 4 {
         Arc::new(Int64Array::from(ts))
     } else {
         Arc::new(TimestampNanosecondArray::from(ts).with_timezone("UTC"))
@@ -66,7 +68,8 @@ pub fn batch(variant: u32, rows: &[Row]) -> RecordBatch {
         0 => vec![ts_col, metric, vi, id],
         1 => vec![ts_col, metric, host, vi, id],
         2 => vec![ts_col, metric, vf, id],
-        _ => vec![ts_col, metric, host, vf, vu, id],
+        4 => vec![ts_col, metric, host, vi, vf, vu, id],
+        _ => vec![ts_col, metric, host, vi, vf, vu, id],
     };
     RecordBatch::try_new(s, cols).expect("batch")
 }
